@@ -142,8 +142,16 @@ class SSHChannel(log.Logger):
         if self.extBuf:
             b = self.extBuf
             self.extBuf = []
-            for type, data in b:
-                self.writeExtended(type, data)
+            # Do not let writeExtended() close the channel while later
+            # buffered runs of extended data are still waiting in b.
+            closing, self.closing = self.closing, 0
+            try:
+                for type, data in b:
+                    self.writeExtended(type, data)
+            finally:
+                self.closing = closing
+            if self.closing:
+                self.loseConnection()  # try again
 
     def requestReceived(self, requestType, data):
         """
